@@ -8,7 +8,8 @@ package main
 // halted node. After every history `tail` further blocks (including epoch ends) must be
 // processed. The random generators stay away from the triggers of the directed scenarios.
 // (b) Directed scenarios, one per recorded defect, each on the real code with its own sig:
-// F-04b, F-11a, F-11b, F-11f, F-11g.
+// F-04b (repaired: regression, must not halt; also through the real evidence path for validators that
+// joined after genesis), F-11a, F-11b, F-11f, F-11g.
 
 import (
 	"fmt"
@@ -30,6 +31,7 @@ import (
 	avstypes "github.com/ExocoreNetwork/exocore/x/avs/types"
 	delegationtypes "github.com/ExocoreNetwork/exocore/x/delegation/types"
 	epochstypes "github.com/ExocoreNetwork/exocore/x/epochs/types"
+	operatortypes "github.com/ExocoreNetwork/exocore/x/operator/types"
 )
 
 func init() { register("liveness", domLiveness) }
@@ -83,6 +85,7 @@ func domLiveness(env *Env) error {
 			sig  string
 		}{
 			{"F-04b", scenarioF04b, "halt:slash-zero-value-operator"},
+			{"F-04b/abci", scenarioEvidenceJoined, "halt:evidence-joined-validator"},
 			{"F-11a", scenarioF11a, "halt:gov-tally-unimplemented"},
 			{"F-11b", scenarioF11b, "halt:avs-empty-signature"},
 			{"F-11f", scenarioF11f, "halt:int64-out-of-bound"},
@@ -316,6 +319,152 @@ func scenarioF04b(seed uint64) (string, string, []string) {
 	}()
 	hist = append(hist, "f04b.call dogfood.SlashWithInfractionReason(consAddr(operator[1]), height 1, power, 5%, DOUBLE_SIGN) as x/evidence BeginBlocker does")
 	return halt, note + " via=keeper-call(evidence ignored: pubkey relation missing for genesis validators)", hist
+}
+
+// joinValidator makes a fresh account a dogfood validator after genesis: register operator, opt in
+// with a consensus key, associate its own client-chain address, deposit and self-delegate `usd`
+// USDT, then cross an epoch end. ApplyValidatorChanges then calls AfterValidatorBonded (signing info)
+// and, from the next power change on, AfterValidatorCreated (pubkey relation).
+func joinValidator(c *Chain, seed uint64, idx int, usd int64) (Actor, sdk.ConsAddress, error) {
+	a := NewActor(seed, "joiner", idx)
+	ck, _ := NewConsKey(seed, "joinercons", idx)
+	asset := common.HexToAddress(c.Cfg.Assets[0].Addr).Bytes()
+	amt := sdkmath.NewIntWithDecimal(usd, int(c.Cfg.Assets[0].Decimals))
+	err := c.CachedDo(func(ctx sdk.Context) error {
+		if err := c.App.OperatorKeeper.SetOperatorInfo(ctx, a.Acc.String(), &operatortypes.OperatorInfo{
+			EarningsAddr: a.Acc.String(), OperatorMetaInfo: fmt.Sprintf("joiner%d", idx),
+			Commission: stakingtypes.NewCommission(sdk.ZeroDec(), sdk.ZeroDec(), sdk.ZeroDec()),
+		}); err != nil {
+			return fmt.Errorf("register: %w", err)
+		}
+		if err := c.App.AssetsKeeper.PerformDepositOrWithdraw(ctx, &assetskeeper.DepositWithdrawParams{
+			ClientChainLzID: c.LzID, Action: assetstypes.DepositLST, StakerAddress: a.Eth.Bytes(), AssetsAddress: asset, OpAmount: amt,
+		}); err != nil {
+			return fmt.Errorf("deposit: %w", err)
+		}
+		if err := c.App.DelegationKeeper.AssociateOperatorWithStaker(ctx, c.LzID, a.Acc, a.Eth.Bytes()); err != nil {
+			return fmt.Errorf("associate: %w", err)
+		}
+		if err := c.App.DelegationKeeper.DelegateTo(ctx, &delegationtypes.DelegationOrUndelegationParams{
+			ClientChainID: c.LzID, Action: assetstypes.DelegateTo, AssetsAddress: asset, OperatorAddress: a.Acc,
+			StakerAddress: a.Eth.Bytes(), OpAmount: amt, LzNonce: uint64(100 + idx), TxHash: common.BytesToHash(detBytes(seed, "join", idx)),
+		}); err != nil {
+			return fmt.Errorf("delegate: %w", err)
+		}
+		if err := c.App.OperatorKeeper.OptInWithConsKey(ctx, a.Acc, c.AVSAddr, ck); err != nil {
+			return fmt.Errorf("opt in: %w", err)
+		}
+		return nil
+	})
+	return a, ck.ToConsAddr(), err
+}
+
+// scenarioEvidenceJoined drives x/evidence and x/slashing through the real ABCI path for validators
+// that joined after genesis (for them the pubkey relation and signing info exist, so evidence is not
+// ignored): (1) duplicate-vote evidence for a joined validator with stake: slashed, jailed, tombstoned
+// in BeginBlock; (2) a second joined validator undelegates everything, the undelegation is released,
+// then evidence for a height at which it was bonded arrives: before commit d040c99 this is the
+// division by zero of F-04b inside BeginBlock; now it must be a logged error.
+func scenarioEvidenceJoined(seed uint64) (string, string, []string) {
+	hist := []string{"f04b2.reset epoch=minute unbonding=1", "f04b2.join two validators (keeper: register, deposit, associate, delegate 200/300 USDT, opt in with key)",
+		"f04b2.blocks over epoch ends", "f04b2.beginblock evidence(duplicate vote, joiner0, with stake)",
+		"f04b2.undelegate joiner1 100% ; blocks until released", "f04b2.beginblock evidence(duplicate vote, joiner1, height when bonded)"}
+	c := NewChainFresh(minuteCfg(seed))
+	_, ca0, err := joinValidator(c, seed, 0, 200)
+	if err != nil {
+		return "", "join0: " + tailStr(err.Error(), 160), hist
+	}
+	j1, ca1, err := joinValidator(c, seed, 1, 300)
+	if err != nil {
+		return "", "join1: " + tailStr(err.Error(), 160), hist
+	}
+	for i := 0; i < 3; i++ {
+		if r := nextMinute(c); r.Halt != "" {
+			return r.Halt, "halt while joining", hist
+		}
+	}
+	// a power change registers the pubkey relation (AfterValidatorCreated runs on updates)
+	for idx, a := range []Actor{NewActor(seed, "joiner", 0), j1} {
+		_ = c.CachedDo(func(ctx sdk.Context) error {
+			amt := sdkmath.NewIntWithDecimal(10, int(c.Cfg.Assets[0].Decimals))
+			asset := common.HexToAddress(c.Cfg.Assets[0].Addr).Bytes()
+			if err := c.App.AssetsKeeper.PerformDepositOrWithdraw(ctx, &assetskeeper.DepositWithdrawParams{
+				ClientChainLzID: c.LzID, Action: assetstypes.DepositLST, StakerAddress: a.Eth.Bytes(), AssetsAddress: asset, OpAmount: amt}); err != nil {
+				return err
+			}
+			return c.App.DelegationKeeper.DelegateTo(ctx, &delegationtypes.DelegationOrUndelegationParams{
+				ClientChainID: c.LzID, Action: assetstypes.DelegateTo, AssetsAddress: asset, OperatorAddress: a.Acc,
+				StakerAddress: a.Eth.Bytes(), OpAmount: amt, LzNonce: uint64(200 + idx), TxHash: common.BytesToHash(detBytes(seed, "join2", idx))})
+		})
+	}
+	for i := 0; i < 2; i++ {
+		if r := nextMinute(c); r.Halt != "" {
+			return r.Halt, "halt while joining (2)", hist
+		}
+	}
+	state := func(ca sdk.ConsAddress) string {
+		_, pkErr := c.App.SlashingKeeper.GetPubkey(c.Ctx, ca.Bytes())
+		_, isVal := c.App.StakingKeeper.GetExocoreValidator(c.Ctx, ca)
+		return fmt.Sprintf("validator=%v pubkey=%v signinfo=%v tombstoned=%v", isVal, pkErr == nil, c.App.SlashingKeeper.HasValidatorSigningInfo(c.Ctx, ca), c.App.SlashingKeeper.IsTombstoned(c.Ctx, ca))
+	}
+	note := "joiner0[" + state(ca0) + "]"
+	bondedHeight, bondedTime := c.Header.Height, c.Header.Time
+	ev := func(ca sdk.ConsAddress, h int64, t time.Time, power int64) BlockResult {
+		return c.EndAndBeginWith(5*time.Second, func(req *abci.RequestBeginBlock) {
+			req.ByzantineValidators = []abci.Misbehavior{{Type: abci.MisbehaviorType_DUPLICATE_VOTE,
+				Validator: abci.Validator{Address: ca, Power: power}, Height: h, Time: t, TotalVotingPower: 711}}
+		})
+	}
+	// (1a) duplicate-vote evidence: x/evidence drops it for EVERY validator of this app, because
+	// operator.ValidatorByConsAddrForChainID builds the validator with stakingtypes.NewValidator, whose
+	// status is Unbonded, and HandleEquivocationEvidence returns early on IsUnbonded().
+	if v := c.App.StakingKeeper.ValidatorByConsAddr(c.Ctx, ca0); v != nil {
+		note += fmt.Sprintf(" ValidatorByConsAddr.IsUnbonded=%v", v.IsUnbonded())
+	}
+	r0 := ev(ca0, bondedHeight, bondedTime, 210)
+	if r0.Halt != "" {
+		return r0.Halt, note + " evidence with stake", hist
+	}
+	// (1b) downtime: joiner0 misses every block of a full signed-blocks window; x/slashing's BeginBlocker
+	// slashes and jails it through dogfood.SlashWithInfractionReason -> operator.Slash -> SlashAssets.
+	win := c.App.SlashingKeeper.SignedBlocksWindow(c.Ctx)
+	before, _ := c.App.OperatorKeeper.CalculateUSDValueForOperator(c.Ctx, true, NewActor(seed, "joiner", 0).Acc.String(), nil, nil, nil)
+	for i := int64(0); i < win+12; i++ {
+		r := c.EndAndBeginWith(5*time.Second, func(req *abci.RequestBeginBlock) {
+			var votes []abci.VoteInfo
+			for _, v := range c.App.StakingKeeper.GetAllExocoreValidators(c.Ctx) {
+				votes = append(votes, abci.VoteInfo{Validator: abci.Validator{Address: v.Address, Power: v.Power}, SignedLastBlock: !sdk.ConsAddress(v.Address).Equals(ca0)})
+			}
+			req.LastCommitInfo = abci.CommitInfo{Votes: votes}
+		})
+		if r.Halt != "" {
+			return r.Halt, note + fmt.Sprintf(" downtime block %d", i), hist
+		}
+	}
+	after, _ := c.App.OperatorKeeper.CalculateUSDValueForOperator(c.Ctx, true, NewActor(seed, "joiner", 0).Acc.String(), nil, nil, nil)
+	note += fmt.Sprintf(" downtime[window=%d jailed=%v value %s->%s]", win, c.App.StakingKeeper.IsValidatorJailed(c.Ctx, ca0), before.StakingAndWaitUnbonding.TruncateInt(), after.StakingAndWaitUnbonding.TruncateInt())
+	note += " after-evidence0[" + state(ca0) + "]"
+	// (2) full exit of joiner1, release, then evidence
+	info, _ := c.App.OperatorKeeper.CalculateUSDValueForOperator(c.Ctx, true, j1.Acc.String(), nil, nil, nil)
+	err = c.CachedDo(func(ctx sdk.Context) error {
+		return c.App.DelegationKeeper.UndelegateFrom(ctx, &delegationtypes.DelegationOrUndelegationParams{
+			ClientChainID: c.LzID, Action: assetstypes.UndelegateFrom, AssetsAddress: common.HexToAddress(c.Cfg.Assets[0].Addr).Bytes(),
+			OperatorAddress: j1.Acc, StakerAddress: j1.Eth.Bytes(), OpAmount: sdkmath.NewIntWithDecimal(310, int(c.Cfg.Assets[0].Decimals)),
+			LzNonce: 300, TxHash: common.BytesToHash(detBytes(seed, "exit", 1))})
+	})
+	if err != nil {
+		return "", note + " undelegate joiner1: " + tailStr(err.Error(), 120) + " value=" + info.StakingAndWaitUnbonding.String(), hist
+	}
+	for i := 0; i < 14; i++ {
+		if r := nextMinute(c); r.Halt != "" {
+			return r.Halt, note + " halt while waiting for the release", hist
+		}
+	}
+	info, _ = c.App.OperatorKeeper.CalculateUSDValueForOperator(c.Ctx, true, j1.Acc.String(), nil, nil, nil)
+	note += " joiner1[value=" + info.StakingAndWaitUnbonding.String() + " " + state(ca1) + "]"
+	r := ev(ca1, bondedHeight, bondedTime, 310)
+	note += " after-evidence1[" + state(ca1) + "]"
+	return r.Halt, note, hist
 }
 
 // F-11a: x/gov's EndBlocker tallies a proposal whose voting period ended; the tally asks the
